@@ -24,7 +24,7 @@ ASSUMPTIONS = [
 ]
 TRUSTED = ["hand-written model HierArc/Model/Lens.lean (checkDist, logMeanExp, draw monad) tied by differential execution"]
 LEVEL_TEXT = ("Lean theorems over ℝ: the marginalised value is log((Σ exp lᵢ)/N) — mean of L, not of log L (with a witness "
-              "that they differ); exactly one evaluation when sharp and exactly N otherwise; N identical draws return the "
+              "that they differ); a draw without a finite log-likelihood counts as a draw of likelihood zero — the divisor stays the configured N (marg_dropped_draws_count, marg_is_mean_over_all_draws, with a witness that dividing by the number of finite draws differs); exactly one evaluation when sharp and exactly N otherwise; N identical draws return the "
               "sharp value; SOUNDNESS of the sharp decision: if check_dist says sharp, any two generator states give the "
               "same arguments to the data likelihood and the same prior term (determinism of the whole draw monad under "
               "zero applicable scatter, for all configurations); on an abstract probability space the N-draw mean is "
